@@ -213,7 +213,7 @@ func c04Run(in *bufio.Scanner, w *bufio.Writer) {
 					continue
 				}
 			}
-			rep, ok := proc.ask(f[1], 20*time.Second)
+			rep, ok := proc.ask(f[1], HxScale(20*time.Second))
 			if !ok {
 				proc.kill()
 				proc = nil
@@ -366,6 +366,11 @@ func c04Gen(rng *rand.Rand, tier string, w *bufio.Writer) {
 	big := []byte{0xff, 0xff, 0xff, 0xff, 0x0f, 0x00} // snappy varint 0xFFFFFFFF, then a literal tag
 	emit(append(append([]byte{}, hdr...), c04Block(uint32(len(big)), 0xFFFFFFFF, 1, big, true)...), 0, "forged-dlen")
 	mid := []byte{0x80, 0x80, 0x80, 0x40, 0x00} // snappy varint 128 MiB
+	for _, declared := range []uint64{1 << 20, 48 << 20, 63 << 20} { // "small" forged lengths: far beyond 32x+64, below any fixed cap
+		pl := append(binary.AppendUvarint(nil, declared), 0x00)
+		emit(append(append([]byte{}, hdr...), c04Block(uint32(len(pl)), uint32(declared), 1, pl, true)...), 0, "forged-dlen")
+		emit(append(append([]byte{}, hdr...), c04Block(uint32(len(pl)), 24, 1, pl, true)...), 0, "forged-dlen")
+	}
 	emit(append(append([]byte{}, hdr...), c04Block(uint32(len(mid)), 1<<27, 1, mid, true)...), 0, "forged-dlen")
 	// a plausible header (small UncompressedSize) in front of a huge snappy preamble: only the preamble is what snappy allocates
 	emit(append(append([]byte{}, hdr...), c04Block(uint32(len(big)), 24, 1, big, true)...), 0, "forged-dlen")
@@ -503,7 +508,9 @@ func c04Gen(rng *rand.Rand, tier string, w *bufio.Writer) {
 			usize += uint32(rng.Intn(3))
 		}
 		if rng.Intn(12) == 0 { // keep the header plausible, forge the snappy preamble (declared decoded length)
-			pre := [][]byte{{0xff, 0xff, 0xff, 0xff, 0x0f}, {0x80, 0x80, 0x80, 0x40}, {0x80, 0x80, 0x80, 0x80, 0x04}}[rng.Intn(3)]
+			// declared lengths from just above 32x+64 of the payload up to 4 GiB (incl. the 1..64 MiB range)
+			declared := []uint64{uint64(33*len(c) + 65), uint64(64 * len(c)), 1 << 16, 1 << 20, 8 << 20, 48 << 20, 63 << 20, 1 << 27, 1 << 30, 0xFFFFFFFF}[rng.Intn(10)]
+			pre := binary.AppendUvarint(nil, declared)
 			_, hl := binary.Uvarint(c)
 			if hl > 0 {
 				c = append(append([]byte{}, pre...), c[hl:]...)
